@@ -107,6 +107,7 @@ def update(rep, fn, w, order, lk):
         raise Unsupported('%s has %d parameters' % (fn.name, len(params)))
     V0 = BV.sym('v', w)
     args = [Ptr('table', 0), Ptr('data', 0), Lin.sym('n', 64), V0]
+    dom.unbounded.add('n')      # any length: narrowing it may wrap
     roles = {}
     ctrs = {}     # phi name -> symbol name of a counter / cursor
 
@@ -121,6 +122,8 @@ def update(rep, fn, w, order, lk):
             nm = 'k%d' % len(ctrs)
             ctrs[ph.res] = nm
             roles.setdefault('n', ph.res)
+            if isinstance(init, Lin):
+                dom.unbounded.add(nm)
             return Lin.sym(nm, 64)
         if 'v' in roles:
             raise Unsupported('two data-dependent loop variables')
